@@ -118,6 +118,11 @@ func scenarios() []scenario {
 		dump.File{Name: "y.yang", Text: `module y { ` + H("y") + ` typedef t { type int32; } identity b; grouping g { leaf gy { type t; } } container cy; }`},
 		dump.File{Name: "m.yang", Text: `module m { ` + H("m") + ` import x { prefix p; } include s1; typedef tm { type p:t; } identity im { base p:b; } leaf lm { type tm; } leaf lm2 { type p:t; } container um { uses p:g; } augment /p:cx { leaf am { type p:t; } } leaf rm { type identityref { base p:b; } } }`},
 		dump.File{Name: "s1.yang", Text: `submodule s1 { belongs-to m { prefix m; } import y { prefix p; } typedef ts { type p:t; } identity is { base p:b; } leaf ls { type ts; } leaf ls2 { type p:t; } container us { uses p:g; } augment /p:cy { leaf as { type p:t; } } leaf rs { type identityref { base p:b; } } }`})
+	// a module whose revision statements are listed oldest first, next to the older revision itself
+	add("revision-list-oldest-first", nil,
+		dump.File{Name: "x-old.yang", Text: `module x { ` + H("x") + ` revision 2019-01-01; typedef t { type string { length "1..8"; } } leaf l { type t; default old; } }`},
+		dump.File{Name: "x-new.yang", Text: `module x { ` + H("x") + ` revision 2019-01-01; revision 2020-06-01; typedef t { type string { length "1..64"; } } leaf l { type t; default new; } leaf b { type t; } }`},
+		dump.File{Name: "user.yang", Text: `module user { ` + H("user") + ` import x { prefix x; } leaf u { type x:t; } container c { leaf v { type x:t; default dv; } } }`})
 	// groupings that use each other across the module boundary: which uses is blamed
 	add("mutual-groupings-across-modules", nil,
 		dump.File{Name: "ma.yang", Text: `module ma { ` + H("ma") + ` import mb { prefix mb; } grouping ga { leaf la { type string; } uses mb:gb; } container ca { uses ga; } }`},
